@@ -27,8 +27,9 @@ deriving DecidableEq, Repr
 inductive Cpt (K : Type) where
   | R    (n1 n2 : Nat) (r : K)
   | Cap  (n1 n2 : Nat) (c : K) (v0 : Option K)
-  | Ind  (n1 n2 m : Nat) (l : K) (i0 : Option K) (coup : List (Nat × K))
-      -- `coup`: mutual inductances (other branch, M = k·√(L·L')) from the `K` lines naming this inductor
+  | Ind  (n1 n2 m : Nat) (l : K) (i0 : Option K) (coup : List (Nat × K × Option K))
+      -- `coup`: mutual inductances (other branch, M = k·√(L·L'), initial current of the other inductor)
+      -- from the `K` lines naming this inductor
   | V    (n1 n2 m : Nat) (v : K)                        -- v: the source value in the analysis domain
   | I    (n1 n2 : Nat) (i : K)
   | E    (n1 n2 n3 n4 m : Nat) (Ad Ac : K)              -- VCVS, differential and common-mode gains
@@ -87,9 +88,19 @@ def lsum : List K → K
   | [] => 0
   | h :: t => h + lsum t
 
-/-- voltage induced in an inductor by the currents of the inductors it is coupled to: Σ s·M·J' -/
-def mutualDrop (s : K) (x : Ix → K) (coup : List (Nat × K)) : K :=
-  lsum (coup.map (fun p => s * p.2 * x (.br p.1)))
+/-- voltage induced in an inductor by the currents of the inductors it is coupled to: Σ s·M·J'
+    (zero initial state) -/
+def mutualDrop (s : K) (x : Ix → K) (coup : List (Nat × K × Option K)) : K :=
+  lsum (coup.map (fun p => s * p.2.1 * x (.br p.1)))
+
+/-- flux left in an inductor by the INITIAL currents of the inductors it is coupled to: Σ M·i0'
+    (v = L di/dt + M di'/dt transforms to sL·I − L·i0 + sM·I' − M·i0') -/
+def icFlux (M : K) : Option K → K
+  | some i0 => M * i0
+  | none => 0
+
+def mutualIC (coup : List (Nat × K × Option K)) : K :=
+  lsum (coup.map (fun p => icFlux p.2.1 p.2.2))
 
 /-- The defining relation(s) of a component that are not expressed by its current alone:
     pairs (branch whose current the relation determines, expression that must vanish). -/
@@ -99,7 +110,7 @@ def laws (kind : Kind) (s : K) (x : Ix → K) : Cpt K → List (Nat × K)
       | .dc => [(m, vd x n1 n2)]                                          -- a short circuit at DC
       | .lap => [(m, vd x n1 n2 - (s * l * x (.br m) + mutualDrop s x coup))]
       | .ivp => [(m, vd x n1 n2 - (s * l * x (.br m) - (match i0 with | some i0 => l * i0 | none => 0)
-                                   + mutualDrop s x coup))]
+                                   + mutualDrop s x coup - mutualIC coup))]
       | .time => [(m, vd x n1 n2)]
   | .V n1 n2 m v => [(m, vd x n1 n2 - v)]
   | .E n1 n2 n3 n4 m Ad Ac => [(m, vd x n1 n2 - (Ad * vd x n3 n4 + Ac * ((volt x n3 + volt x n4) / 2)))]
